@@ -1,10 +1,78 @@
-(* C10 — statements only. *)
+(* C10 — phase-space events are physical, exactly counted and LIPS-flat.  Statements only.
+   Model: Samp/PhaseSpace.v.  Masses in "a-order": a0 = m_mass[-1], tl = [a1;..;a_{n-1}] (a_i = m_mass[-i-1]),
+   sampled ladder Ms = [M_1;..;M_{n-2}], full ladder Ms ++ [m0]; step i is M_{i+1} -> M_i + a_{i+1}.
+   The uniform random numbers (ladder positions, cos theta, phi, accept/reject) are inputs: the RNG is an oracle. *)
 From Coq Require Import Reals List Lra.
+From Interval Require Import Tactic.
 From TFV Require Import Base.RBase Kin.Boost Kin.Boost_proofs Samp.PhaseSpace Samp.PhaseSpace_proofs.
 Import ListNotations.
 Open Scope R_scope.
 
+(* ---- exact count (generate, force=True): accepted batches concatenated, cut to N *)
 Theorem C10_generate_count : forall (A : Type) (N : nat) (batches : list (list A)),
   (N <= length (concat batches))%nat -> length (generate_out N batches) = N.
 Proof. exact @generate_count. Qed.
 Print Assumptions C10_generate_count.
+
+(* ---- one two-body step M -> m1 + m2, any direction *)
+Theorem C10_two_body_on_shell : forall M m1 m2 ct phi, -1 <= ct <= 1 ->
+  mass2 (two_body_p M m1 m2 ct phi) = m2 * m2 /\ mass2 (neg4 (two_body_recoil M m1 m2 ct phi)) = m1 * m1.
+Proof. exact two_body_on_shell. Qed.
+Print Assumptions C10_two_body_on_shell.
+
+Theorem C10_two_body_sum_at_rest : forall M m1 m2 ct phi, 0 <= m1 -> 0 <= m2 -> m1 + m2 <= M -> 0 < M ->
+  add4 (two_body_p M m1 m2 ct phi) (neg4 (two_body_recoil M m1 m2 ct phi)) = V4 M 0 0 0.
+Proof. exact two_body_sum_at_rest. Qed.
+Print Assumptions C10_two_body_sum_at_rest.
+
+(* ---- every event, any n >= 2 (induction over the ladder, through C11's mink_boost / boost linearity):
+   all particles on shell (listed in the code's output order m_mass[0..n-1] = rev (a0 :: a1 :: tl)) and the
+   momenta add up to the parent at rest.  [boosts_ok]: the parent of every later step has positive mass and its
+   recoil velocity is outside the gamma2 guard of LorentzVector.boost (beta^2 > 1e-14). *)
+Theorem C10_event_physical : forall m0 a0 a1 tl Ms angles,
+  0 <= a0 -> ladder_valid a0 (Ms ++ [m0]) (a1 :: tl) ->
+  match Ms ++ [m0] with M1 :: ladder' => 0 < M1 /\ boosts_ok M1 ladder' tl | [] => True end ->
+  length angles = S (length tl) -> (forall ct phi, In (ct, phi) angles -> -1 <= ct <= 1) ->
+  map mass2 (event m0 a0 (a1 :: tl) Ms angles) = map sq (rev (a0 :: a1 :: tl)) /\
+  sum4 (event m0 a0 (a1 :: tl) Ms angles) = V4 m0 0 0 0.
+Proof. exact event_physical. Qed.
+Print Assumptions C10_event_physical.
+
+(* ---- the acceptance weight is in [0,1] for every ladder the generator can produce *)
+Theorem C10_get_p_mono : forall M1 M2 a a' b, 0 <= a -> a <= a' -> 0 <= b -> a' + b <= M1 -> M1 <= M2 -> 0 < M1 ->
+  get_p M1 a' b <= get_p M2 a b.
+Proof. exact get_p_le. Qed.
+Print Assumptions C10_get_p_mono.
+
+Theorem C10_prod_q_le_wtmax : forall m0 a0 tl Ms, 0 <= a0 -> ladder_valid a0 (Ms ++ [m0]) tl ->
+  Forall (fun M => 0 < M) (Ms ++ [m0]) -> 0 <= rprod (q_list a0 (Ms ++ [m0]) tl) <= wt_max m0 a0 tl.
+Proof. exact prod_q_le_wtmax. Qed.
+Print Assumptions C10_prod_q_le_wtmax.
+
+Theorem C10_weight_le_one : forall m0 a0 tl Ms, 0 <= a0 -> ladder_valid a0 (Ms ++ [m0]) tl ->
+  Forall (fun M => 0 < M) (Ms ++ [m0]) -> ranges_respected m0 a0 a0 (sm0 tl) tl Ms -> 0 < wt_max m0 a0 tl ->
+  0 <= weight m0 a0 tl Ms <= 1.
+Proof. exact weight_le_one. Qed.
+Print Assumptions C10_weight_le_one.
+
+(* ---- flatness in Lorentz-invariant phase space: (density with which generate_mass proposes the ladder)
+   x (acceptance weight) = C x prod q_i, with C = lips_const depending on the mass set only.  Together with the
+   isotropic angles (uniform cos theta, phi: oracle) accepted events have the LIPS density. *)
+Theorem C10_lips_flat : forall m0 a0 tl Ms, length Ms = length (mass_ranges m0 a0 tl) ->
+  ladder_inside m0 a0 (sm0 tl) tl Ms ->
+  proposal_density m0 a0 tl Ms * weight m0 a0 tl Ms = lips_const m0 a0 tl * rprod (q_list a0 (Ms ++ [m0]) tl).
+Proof. exact lips_flat. Qed.
+Print Assumptions C10_lips_flat.
+
+(* ---- non-vacuity *)
+Example C10_example_two_body : add4 (two_body_p 1 (3/10) (2/10) (1/2) 1) (neg4 (two_body_recoil 1 (3/10) (2/10) (1/2) 1)) = V4 1 0 0 0.
+Proof. apply two_body_sum_at_rest; lra. Qed.
+(* 3 bodies m0 = 1 -> masses 0.1, 0.2, 0.3 (a0 = 0.3), ladder M_1 = 0.7: weight in [0,1] *)
+Example C10_example_weight : 0 <= weight 1 (3/10) [2/10; 1/10] [7/10] <= 1.
+Proof.
+  apply weight_le_one; try lra.
+  - cbn. repeat split; lra.
+  - repeat constructor; lra.
+  - cbn. repeat split; lra.
+  - unfold wt_max. cbn [wtmax_list rsum rprod]. unfold get_p, rmax. interval.
+Qed.
